@@ -102,8 +102,86 @@ def validate_traces(ctx: Ctx, traces: List[Dict[str, Any]], origins: List[Dict[s
     return stats
 
 
+CFG_API = """SPECIFICATION Spec
+CONSTANTS MaxObj = {n}
+  Names = {{"a", "b"}}
+  MaxHist = {n}
+VIEW View
+ACTION_CONSTRAINT EmitEdge
+INVARIANT RegistryInv
+"""
+
+
+def replay_api_history(h: List[Dict[str, Any]]) -> Dict[str, Any]:
+    """One TLC history of RegistryMC.tla through the real System with fresh Documentables."""
+    from pydoctor import model
+    system = model.System()
+    system.options.quietness = 0
+    orig = model.System.msg
+    model.System.msg = lambda self, *a, **k: None
+    objs: List[Any] = []
+    crash = ""
+    try:
+        for a in h:
+            try:
+                if a["a"] == "add":
+                    cls = {"Package": model.Package, "Module": model.Module, "Class": system.Class,
+                           "Function": system.Function, "Attribute": system.Attribute}[a["c"]]
+                    o = cls(system, a["n"], objs[a["p"] - 1] if a["p"] else None)
+                    if a["p"] and not isinstance(o, model.Module):
+                        o.parentMod = objs[a["p"] - 1].parentMod if not isinstance(objs[a["p"] - 1], model.Module) else objs[a["p"] - 1]
+                    elif isinstance(o, model.Module):
+                        o.parentMod = o
+                    objs.append(o)
+                    system.addObject(o)
+                else:
+                    objs[a["o"] - 1].reparent(objs[a["p"] - 1], a["n"])
+            except Exception as e:
+                crash = f"{type(e).__name__}: {e}"
+                break
+    finally:
+        model.System.msg = orig
+    ids = {id(o): i + 1 for i, o in enumerate(objs)}
+    return {"crash": crash,
+            "objs": [{"cls": type(o).__name__, "nm": P.comp(o.name), "par": ids.get(id(o.parent), 0) if o.parent is not None else 0} for o in objs],
+            "keys": sorted(((P.qn(k), ids.get(id(v), 0)) for k, v in system.allobjects.items()), key=lambda t: json.dumps(t, sort_keys=True)),
+            "system": system, "objlist": objs}
+
+
+def api_level(ctx: Ctx) -> None:
+    """Registry as a free-standing machine (any legal addObject / reparent): one history per transition of the
+    reachable graph, replayed through the real System.  Conformance only (such histories need not be producible
+    by analysing source): differences are drift, invariant failures on the real state are recorded, not alarms."""
+    n = 4 if ctx.quick else 5
+    r = ctx.tlc("RegistryMC", CFG_API.format(n=n), workers="auto", check=True, timeout=2400)
+    mism = inv_fail = 0
+    edges = r.printed
+    if not ctx.quick:
+        edges = edges[:: max(1, len(edges) // 60000)]
+    for e in edges:
+        real = replay_api_history(e["h"])
+        ctx.traces += 1
+        spec_keys = sorted((([dict(c) for c in k["k"]], k["o"]) for k in e["keys"]), key=lambda t: json.dumps(t, sort_keys=True))
+        spec_objs = [{"cls": o["cls"], "nm": o["nm"], "par": o["par"]} for o in e["objs"]]
+        real_cls = [{**o, "cls": {"ZopeInterfaceClass": "Class", "ZopeInterfaceFunction": "Function",
+                                  "ZopeInterfaceAttribute": "Attribute"}.get(o["cls"], o["cls"])} for o in real["objs"]]
+        if bool(real["crash"]) != e["crash"] or (not e["crash"] and (real_cls != spec_objs or
+                                                                     [[k, o] for k, o in real["keys"]] != [[k, o] for k, o in spec_keys])):
+            mism += 1
+            ctx.drift_note({"what": "api-level", "history": e["h"], "spec_crash": e["crash"], "real_crash": real["crash"]})
+        if not real["crash"]:
+            st = {"objs": real["objs"], "cont": [[[nm, next(i + 1 for i, x in enumerate(real["objlist"]) if x is c)] for nm, c in o.contents.items()] for o in real["objlist"]],
+                  "all": [[k, o] for k, o in real["keys"]], "roots": [next(i + 1 for i, x in enumerate(real["objlist"]) if x is ro) for ro in real["system"].rootobjects]}
+            if P.registry_invariants(st):
+                inv_fail += 1
+    ctx.extra["api_level"] = {"bound": n, "transitions_replayed": len(edges), "mismatches": mism,
+                              "design_level_RegistryInv": "holds" if not r.violated else "VIOLATED",
+                              "real_states_failing_an_invariant_(not_a_verdict)": inv_fail}
+
+
 def run(ctx: Ctx) -> int:
     rng = random.Random(ctx.seed)
+    api_level(ctx)
     projs = families.all_projects(ctx.quick)
     if not ctx.quick:
         projs += [families.random_project(rng, rng.randint(3, 5)) for _ in range(150)]
